@@ -279,13 +279,14 @@ pub fn run(cx: &mut Cx) {
         // middle template afterwards
         // / a middle template first hung under a decoy root and then re-registered under its real parent / the real root
         // registered last, shadowing a decoy found through a fallback prefix
-        let mode = r.below(5);
+        let mode = r.below(6);
         let regmode = [
             "one shuffled batch",
             "one call per template, ancestors first",
             "shuffled batch, then a middle template re-added",
             "shuffled batch in which one template extends a decoy root, then that template re-registered under its real parent",
             "fallback prefix: decoy root under the prefix plus the descendants, then the real root registered last",
+            "two fallback prefixes: decoy root under the second one plus the descendants, then the real root registered last under the first",
         ][mode];
         // the decoy defines every block name, so that whatever hangs below it is accepted
         let decoy: String = format!("DECOY{}", BN.iter().map(|b| format!("{{% block {b} %}}decoy-{b}{{% endblock %}}")).collect::<String>());
@@ -330,6 +331,19 @@ pub fn run(cx: &mut Cx) {
                     }
                     res
                 }
+                5 if len > 1 => {
+                    let mut res = t.set_fallback_prefixes(vec!["hi/".to_string(), "th/".to_string()]);
+                    if res.is_ok() {
+                        let mut first: Vec<(String, String)> = srcs[1..].to_vec();
+                        first.push(("th/t0".to_string(), decoy.clone()));
+                        r.shuffle(&mut first);
+                        res = t.add_raw_templates(first);
+                    }
+                    if res.is_ok() {
+                        res = t.add_raw_template("hi/t0", &srcs[0].1);
+                    }
+                    res
+                }
                 _ => {
                     let mut res = Ok(());
                     for s in &srcs {
@@ -362,10 +376,12 @@ pub fn run(cx: &mut Cx) {
             continue;
         }
         cx.count("chains", 1);
-        // an includer per template, added afterwards: including a template renders it, inheritance included
-        let mut t = t;
+        // an includer per template, added afterwards to a copy of the engine (the chains themselves are rendered on the engine
+        // as the registration steps left it: a later call would rebuild whatever they derived): including a template
+        // renders it, inheritance included
+        let mut ti = t.clone();
         let incs: Vec<(String, String)> = (0..len).map(|i| (format!("inc{i}"), format!("<{{% include \"t{i}\" %}}>"))).collect();
-        let includers_ok = matches!(guard(|| t.add_raw_templates(incs.clone()).is_ok()), Ok(true));
+        let includers_ok = matches!(guard(|| ti.add_raw_templates(incs.clone()).is_ok()), Ok(true));
         if mode >= 3 && len > 1 {
             cx.count("chains_reparented_after_registration", 1);
         }
@@ -390,7 +406,7 @@ pub fn run(cx: &mut Cx) {
             let mut model = Model { defs: path.iter().map(|i| defs[*i].clone()).collect(), depth: 0, block_text: BTreeMap::new() };
             let mut exp = String::new();
             let mr = model.render(&chain[0], None, &mut exp);
-            let name = format!("t{leaf}");
+            let name = if mode == 5 && len > 1 && leaf == 0 { "hi/t0".to_string() } else { format!("t{leaf}") };
             cx.eval();
             let got = match guard(|| t.render(&name, &Context::new()).map_err(|e| e.to_string())) {
                 Ok(g) => g,
@@ -412,7 +428,7 @@ pub fn run(cx: &mut Cx) {
             }
             if includers_ok {
                 cx.eval();
-                let gi = guard(|| t.render(&format!("inc{leaf}"), &Context::new()).map_err(|e| e.to_string()));
+                let gi = guard(|| ti.render(&format!("inc{leaf}"), &Context::new()).map_err(|e| e.to_string()));
                 cx.count("included_leaves_compared", 1);
                 match (&mr, gi) {
                     (Ok(()), Ok(Ok(g))) if g == format!("<{exp}>") => {}
